@@ -17,16 +17,18 @@ import (
 // a simulated process time zone.
 
 type vgCfg struct {
-	Zone    string  `json:"zone"`    // "" = whatever the process has (TZ environment variant)
-	Instant string  `json:"instant"` // RFC3339, UTC
+	Zone    string `json:"zone"`    // "" = whatever the process has (TZ environment variant)
+	Instant string `json:"instant"` // RFC3339, UTC: the clock when the first update is produced
+}
+
+// vgOp produces one signed update. Several updates of one run stay alive until
+// the end of the run and are judged again then.
+type vgOp struct {
+	Op      string  `json:"op"` // SignEFIVariable | WriteSignedUpdate
 	Var     VarSpec `json:"var"`
 	Val     ValSpec `json:"val"`
 	Key     int     `json:"key"`
-	API     string  `json:"api"` // SignEFIVariable | WriteSignedUpdate
-}
-
-type vgOp struct {
-	Op string `json:"op"`
+	Advance int     `json:"advance_s,omitempty"` // simulated seconds that pass before this operation
 }
 
 type varsignEngine struct{ tz bool }
@@ -118,6 +120,48 @@ func genInstant0(r *R) (time.Time, string) {
 	return t, "uniform"
 }
 
+func genVgOp(r *R) vgOp {
+	var op vgOp
+	// variable: predefined authenticated ones, or generated
+	switch r.Intn(3) {
+	case 0:
+		op.Var = VarSpec{Sym: Pick(r, []string{"PK", "KEK", "Db", "Dbx"})}
+		if r.Chance(1, 3) {
+			op.Var.Attrs, op.Var.AttrsSet = uint32(predefinedVar(op.Var.Sym).Attributes)|0x40, true
+		}
+	case 1:
+		op.Var = VarSpec{Sym: Pick(r, predefinedVars()).Sym}
+	default:
+		op.Var = genVarSpec(r)
+		if op.Var.Sym == "" {
+			op.Var.Attrs = uint32(r.Intn(0x100))
+		}
+	}
+	switch r.Intn(5) {
+	case 0:
+		op.Val = ValSpec{Kind: "hashdb", N: 0}
+	case 1:
+		op.Val = ValSpec{Kind: "hashdb", N: r.Range(1, 6), Tag: r.Intn(250)}
+	case 2:
+		op.Val = ValSpec{Kind: "certdb", Tag: r.Intn(poolSize)}
+	default:
+		op.Val = ValSpec{Kind: "raw", N: Pick(r, []int{0, 1, 2, 15, 16, 17, 39, 40, 41, 255, 256, 1000}), Tag: r.Intn(1 << 16)}
+	}
+	switch r.Intn(6) {
+	case 0:
+		op.Key = r.Intn(poolSize)
+	case 1, 2:
+		op.Key = Pick(r, []int{8, 9}) // CA-issued: issuer differs from subject
+	default:
+		op.Key = r.Intn(2) // mostly the cheap self-signed 2048-bit keys
+	}
+	op.Op = "SignEFIVariable"
+	if r.Bool() {
+		op.Op = "WriteSignedUpdate"
+	}
+	return op
+}
+
 func (e *varsignEngine) Gen(seed uint64, tier string, run int) *Trace {
 	r := NewR(seed, e.Name(), run)
 	var c vgCfg
@@ -129,41 +173,20 @@ func (e *varsignEngine) Gen(seed uint64, tier string, run int) *Trace {
 	}
 	t, _ := genInstant(r)
 	c.Instant = t.Format(time.RFC3339)
-	// variable: predefined authenticated ones, or generated
-	switch r.Intn(3) {
-	case 0:
-		c.Var = VarSpec{Sym: Pick(r, []string{"PK", "KEK", "Db", "Dbx"})}
-		if r.Chance(1, 3) {
-			c.Var.Attrs, c.Var.AttrsSet = uint32(predefinedVar(c.Var.Sym).Attributes)|0x40, true
+	n := 1
+	if r.Chance(1, 3) {
+		n = r.Range(2, 4)
+	}
+	var ops []vgOp
+	for i := 0; i < n; i++ {
+		op := genVgOp(r.Fork(fmt.Sprint("op", i)))
+		if i > 0 && r.Bool() {
+			op.Advance = Pick(r, []int{1, 59, 60, 3599, 3600, 86399, 86400, r.Intn(1000000)})
 		}
-	case 1:
-		c.Var = VarSpec{Sym: Pick(r, predefinedVars()).Sym}
-	default:
-		c.Var = genVarSpec(r)
-		if c.Var.Sym == "" {
-			c.Var.Attrs = uint32(r.Intn(0x100))
-		}
-	}
-	switch r.Intn(5) {
-	case 0:
-		c.Val = ValSpec{Kind: "hashdb", N: 0}
-	case 1:
-		c.Val = ValSpec{Kind: "hashdb", N: r.Range(1, 6), Tag: r.Intn(250)}
-	case 2:
-		c.Val = ValSpec{Kind: "certdb", Tag: r.Intn(poolSize)}
-	default:
-		c.Val = ValSpec{Kind: "raw", N: Pick(r, []int{0, 1, 2, 15, 16, 17, 39, 40, 41, 255, 256, 1000}), Tag: r.Intn(1 << 16)}
-	}
-	c.Key = r.Intn(poolSize)
-	if r.Chance(2, 3) {
-		c.Key = r.Intn(2) // mostly the cheap 2048-bit keys
-	}
-	c.API = "SignEFIVariable"
-	if r.Bool() {
-		c.API = "WriteSignedUpdate"
+		ops = append(ops, op)
 	}
 	return &Trace{Property: "C06", Engine: e.Name(), Seed: seed, Run: run, Tier: tier,
-		Cfg: mustJSON(c), Ops: rawList([]vgOp{{Op: c.API}}), Faults: []json.RawMessage{}, Schedule: []json.RawMessage{}}
+		Cfg: mustJSON(c), Ops: rawList(ops), Faults: []json.RawMessage{}, Schedule: []json.RawMessage{}}
 }
 
 var pkcs7GUIDWire = []byte{0x9d, 0xd2, 0xaf, 0x4a, 0xdf, 0x68, 0xee, 0x49, 0x8a, 0xa9, 0x34, 0x7d, 0x37, 0x56, 0x65, 0xa7}
@@ -173,7 +196,11 @@ func (e *varsignEngine) Exec(tr *Trace, x *X) {
 	if err := json.Unmarshal(tr.Cfg, &c); err != nil {
 		harnessf("varsign cfg: %v", err)
 	}
-	if len(tr.Ops) == 0 {
+	ops, err := unrawList[vgOp](tr.Ops)
+	if err != nil {
+		harnessf("varsign ops: %v", err)
+	}
+	if len(ops) == 0 {
 		x.Logf("no operation")
 		return
 	}
@@ -182,19 +209,65 @@ func (e *varsignEngine) Exec(tr *Trace, x *X) {
 		harnessf("varsign instant: %v", err)
 	}
 	at = at.UTC()
-	x.Sim(at.Unix())
-	if pv := inBubble(x.T, at, c.Zone, func() { vgExec(c, at, x) }); pv != nil {
+	if pv := inBubble(x.T, at, c.Zone, func() {
+		type alive struct {
+			i    int
+			op   vgOp
+			m    interface{ Bytes() []byte }
+			b    []byte
+			at   time.Time
+			kind string
+		}
+		var live []alive
+		for i, op := range ops {
+			if x.Failed() {
+				return
+			}
+			if op.Advance > 0 {
+				time.Sleep(time.Duration(op.Advance) * time.Second)
+			}
+			now := time.Now().UTC()
+			if now.After(simMaxInstant) {
+				x.Logf("op %d skipped: simulated clock past %s", i, simMaxInstant.Format(time.RFC3339))
+				continue
+			}
+			x.Sim(now.Unix())
+			m, b := vgExec(c, op, i, now, x)
+			if b != nil {
+				live = append(live, alive{i, op, m, b, now, op.Op})
+			}
+		}
+		// every update produced in this run is still the same byte string
+		for _, l := range live {
+			if x.Failed() {
+				return
+			}
+			if l.m == nil {
+				continue
+			}
+			again := l.m.Bytes()
+			if !bytes.Equal(again, l.b) {
+				x.Fail("varsign.update_stays_valid", l.i, l.kind, "update %d of this run read back at the end of the run differs from what it was when produced (%s vs %s); %d update(s) were produced after it", l.i, shortHex(again), shortHex(l.b), len(live)-1)
+				return
+			}
+			if len(live) > 1 {
+				x.Probe("several_updates_alive")
+			}
+		}
+	}); pv != nil {
 		panic(pv)
 	}
 }
 
-func vgExec(c vgCfg, at time.Time, x *X) {
-	v := c.Var.Var()
-	payload := c.Val.Bytes()
-	pk := Pool()[c.Key%poolSize]
-	kind := c.API
+// vgExec produces one update and judges it. It returns the Marshallable (when
+// the API hands one out) and the bytes.
+func vgExec(c vgCfg, op vgOp, i int, at time.Time, x *X) (interface{ Bytes() []byte }, []byte) {
+	v := op.Var.Var()
+	payload := op.Val.Bytes()
+	pk := Pool()[op.Key%poolSize]
+	kind := op.Op
 	zname, zoff := time.Now().Zone()
-	x.Logf("zone=%q (process sees %s%+d) instant=%s var=%s payload=%s key=k%d api=%s", c.Zone, zname, zoff, at.Format(time.RFC3339), c.Var.String(), shortHex(payload), c.Key, c.API)
+	x.Logf("op %d zone=%q (process sees %s%+d) instant=%s var=%s payload=%s key=k%d api=%s", i, c.Zone, zname, zoff, at.Format(time.RFC3339), op.Var.String(), shortHex(payload), op.Key, op.Op)
 	if zoff != 0 {
 		x.Probe("non_utc_zone")
 	}
@@ -204,19 +277,22 @@ func vgExec(c vgCfg, at time.Time, x *X) {
 	if at.In(time.Local).IsDST() {
 		x.Probe("dst_in_effect")
 	}
+	if string(pk.Cert.RawIssuer) != string(pk.Cert.RawSubject) {
+		x.Probe("ca_issued_signer")
+	}
 	var out []byte
+	var keep interface{ Bytes() []byte }
 	var err error
 	var pv any
 	func() {
 		defer func() { pv = recover() }()
-		switch c.API {
+		switch op.Op {
 		case "SignEFIVariable":
-			var m interface{ Bytes() []byte }
 			_, mm, e2 := signature.SignEFIVariable(v, rawVal(payload), pk.Key, pk.Cert)
 			err = e2
 			if mm != nil {
-				m = mm
-				out = m.Bytes()
+				keep = mm
+				out = mm.Bytes()
 			}
 		case "WriteSignedUpdate":
 			plane := NewPlane(nil)
@@ -231,20 +307,20 @@ func vgExec(c vgCfg, at time.Time, x *X) {
 				}
 			}
 		default:
-			harnessf("varsign: unknown api %q", c.API)
+			harnessf("varsign: unknown api %q", op.Op)
 		}
 	}()
-	fail := func(oracle, format string, a ...any) { x.Fail(oracle, 0, kind, format, a...) }
+	fail := func(oracle, format string, a ...any) { x.Fail(oracle, i, kind, format, a...) }
 	if pv != nil {
 		if he, ok := pv.(*HarnessError); ok {
 			panic(he)
 		}
 		fail("varsign.no_panic", "panicked: %v", pv)
-		return
+		return nil, nil
 	}
 	if err != nil {
 		fail("varsign.succeeds", "signing with a healthy key failed: %v", err)
-		return
+		return nil, nil
 	}
 	x.Steps++
 	x.Nontriv = true
@@ -252,7 +328,7 @@ func vgExec(c vgCfg, at time.Time, x *X) {
 	x.Logf("update: %d bytes, head=%x", len(b), b[:min(len(b), 40)])
 	if len(b) < 40 {
 		fail("varsign.layout", "update has %d bytes, a descriptor needs 40", len(b))
-		return
+		return nil, nil
 	}
 	// --- 16-byte EFI_TIME: the simulated instant, in UTC ---
 	want := make([]byte, 16)
@@ -262,25 +338,25 @@ func vgExec(c vgCfg, at time.Time, x *X) {
 		got := fmt.Sprintf("%04d-%02d-%02d %02d:%02d:%02d pad1=%d ns=%d tz=%d dl=%d pad2=%d", binary.LittleEndian.Uint16(b), b[2], b[3], b[4], b[5], b[6], b[7],
 			binary.LittleEndian.Uint32(b[8:]), int16(binary.LittleEndian.Uint16(b[12:])), b[14], b[15])
 		fail("varsign.timestamp_is_utc_now", "descriptor time %s, simulated clock says %s UTC (process zone %s%+ds)", got, at.Format("2006-01-02 15:04:05"), zname, zoff)
-		return
+		return nil, nil
 	}
 	// --- WIN_CERTIFICATE_UEFI_GUID header ---
 	dw := int(binary.LittleEndian.Uint32(b[16:]))
 	if rev := binary.LittleEndian.Uint16(b[20:]); rev != 0x0200 {
 		fail("varsign.layout", "wRevision %#x", rev)
-		return
+		return nil, nil
 	}
 	if ct := binary.LittleEndian.Uint16(b[22:]); ct != 0x0EF1 {
 		fail("varsign.layout", "wCertificateType %#x", ct)
-		return
+		return nil, nil
 	}
 	if !bytes.Equal(b[24:40], pkcs7GUIDWire) {
 		fail("varsign.layout", "CertType GUID %x is not EFI_CERT_TYPE_PKCS7_GUID", b[24:40])
-		return
+		return nil, nil
 	}
 	if dw < 24 || 16+dw > len(b) {
 		fail("varsign.layout", "dwLength %d out of range (update has %d bytes)", dw, len(b))
-		return
+		return nil, nil
 	}
 	sig := b[40 : 16+dw]
 	rest := b[16+dw:]
@@ -291,24 +367,24 @@ func vgExec(c vgCfg, at time.Time, x *X) {
 		} else {
 			fail("varsign.payload_unchanged", "bytes after the descriptor differ from the payload: %s vs %s", shortHex(rest), shortHex(payload))
 		}
-		return
+		return nil, nil
 	}
 	cms, err := refCMSParse(sig)
 	if err != nil {
 		fail("varsign.signeddata", "certificate data is not a DER SignedData: %v", err)
-		return
+		return nil, nil
 	}
 	if !cms.Bare {
 		fail("varsign.bare_signeddata", "SignedData is wrapped in a ContentInfo")
-		return
+		return nil, nil
 	}
 	if cms.HasContent {
 		fail("varsign.detached", "SignedData carries encapsulated content; the signature must be detached")
-		return
+		return nil, nil
 	}
 	if len(cms.DigestAlgs) != 1 || !cms.DigestAlgs[0].Equal(oidSHA256) {
 		fail("varsign.sha256", "digestAlgorithms %v", cms.DigestAlgs)
-		return
+		return nil, nil
 	}
 	// --- the signed buffer ---
 	var buf []byte
@@ -320,8 +396,10 @@ func vgExec(c vgCfg, at time.Time, x *X) {
 	buf = append(buf, b[:16]...)
 	buf = append(buf, payload...)
 	if err := refCMSVerify(cms, pk.Cert, buf); err != nil {
+		_ = c
 		fail("varsign.signature_binds_variable", "independent verification over name||GUID||attributes||timestamp||payload failed: %v", err)
-		return
+		return nil, nil
 	}
 	x.State(h64(c.Zone, at.Unix()/86400))
+	return keep, append([]byte(nil), out...)
 }
